@@ -206,6 +206,9 @@ func init() {
 	natives["io/ioutil.TempFile"] = tempFile
 	natives["os.CreateTemp"] = tempFile
 
+	natives["(*os.File).Fd"] = func(w *Worker, st *State, args []Value, fv *FuncV, depth int) []Outcome {
+		return ret1(st, mkInt(0))
+	}
 	natives["(*os.File).Name"] = func(w *Worker, st *State, args []Value, fv *FuncV, depth int) []Outcome {
 		h, _ := fhOf(st, args[0])
 		if h == nil {
